@@ -69,7 +69,7 @@ let () =
           let av = Array.of_list (floats sa) and b = Array.of_list (floats sb) and d = Array.of_list (floats sd) in
           let lo = floats slo and hi = floats shi and x0 = floats sx in
           let am i j = av.(i * n + j) in
-          let cost (xl : float list) : float =
+          let cost0 (xl : float list) : float =
             let x = Array.of_list xl in
             let c = ref 0.0 in
             if kind = "q" || kind = "l" then
@@ -79,6 +79,8 @@ let () =
               for i = 0 to n - 2 do c := !c +. 100.0 *. (x.(i+1) -. x.(i) *. x.(i)) ** 2.0 +. (1.0 -. x.(i)) ** 2.0 done;
               if n = 1 then c := (1.0 -. x.(0)) ** 2.0 end;
             !c in
+          (* heavy perturbation: the cost function itself by one ulp (std::pow / log and their OCaml counterparts, summation order) *)
+          let cost xl = let c = cost0 xl in if pert <= 20 then c else c *. (1.0 +. pnext ()) in
           let grad (xl : float list) : float list =
             let x = Array.of_list xl in
             let g = Array.make n 0.0 in
